@@ -1,0 +1,33 @@
+//! Verification hooks. Compiled only with `--features verif`; the default
+//! build does not contain this module. Every item here is an additive seam
+//! (gate override, scheduling point, re-export of a private parser) used by
+//! the external model-checking harness; none changes behaviour unless the
+//! harness sets it explicitly.
+
+use std::sync::atomic::{AtomicI64, Ordering};
+
+/// A process-global integer override: negative means "not set".
+pub struct Override(AtomicI64);
+
+impl Override {
+    pub const fn new() -> Self {
+        Override(AtomicI64::new(-1))
+    }
+    pub fn set(&self, v: Option<u64>) {
+        self.0.store(v.map(|x| x as i64).unwrap_or(-1), Ordering::SeqCst);
+    }
+    pub fn get(&self) -> Option<u64> {
+        let v = self.0.load(Ordering::SeqCst);
+        if v < 0 {
+            None
+        } else {
+            Some(v as u64)
+        }
+    }
+}
+
+impl Default for Override {
+    fn default() -> Self {
+        Self::new()
+    }
+}
